@@ -12,7 +12,7 @@ m = Poly.sym("m")
 
 def check_linear(index, ctx):
     A, by_class = _agg.analysis(index)
-    base_w = index.get_class("torchjd.aggregation.bases._WeightedAggregator")
+    base_w = _agg.weighted_base(index)
     names = _agg.classes_named(index, ["Constant", "Sum", "Mean"], ctx, "A1")
     expect = {"Sum": Poly.const(1), "Mean": m.inverse()}
     for name in names:
